@@ -1,6 +1,6 @@
 CONSTANTS N = 2  W = 1
           T = 3  MaxOut = 2  Base = 1  Fee = 1  KMax = 3
-          SendAmts = {2, 4}  OwnModes = {1}  MaxIns = 2  MaxBlockTx = 2
+          SendAmts = {2}  OwnModes = {1}  MaxIns = 2  MaxBlockTx = 2
           MaxDeliver = 99  MaxMem = 1  MaxSend = 2  MaxRewind = 0
           RewindInclusive <- SwRI  KeepOnConfirm <- SwKC  KeepOnMempool <- SwKM
           UnconfInZero <- SwUZ  ZeroSentinel <- SwZS
